@@ -5,6 +5,8 @@ ROOT = os.path.abspath(os.path.join(os.path.dirname(os.path.abspath(__file__)), 
 checks = []
 for p in sorted(glob.glob(os.path.join(ROOT, "meta", "C*.json"))):
     m = json.load(open(p))
+    if not m.get("ready"):
+        continue
     pid = m["id"]
     checks.append({
         "property_id": pid,
